@@ -305,6 +305,21 @@ pub fn dispatch(m: &mut Machine, name: &str, args: &[&str]) -> Option<R> {
                 Ok(obs_bytes(&out))
             })
         })(),
+        // process_rep <slot> <chunk> <count>: the chunk processed in place <count> times (many small calls); answer of the last call
+        "process_rep" => (|| {
+            need(args, 3)?;
+            let s = arg_slot(args[0])?;
+            let d = arg_bytes(args[1])?;
+            let n = arg_usize(args[2])?;
+            with_cipher(m, s, |c| {
+                let mut last = d.as_slice().to_vec();
+                for _ in 0..n {
+                    last.copy_from_slice(d.as_slice());
+                    c.process_mut(&mut last);
+                }
+                Ok(obs_bytes(&last))
+            })
+        })(),
         "process_mut" => (|| {
             need(args, 2)?;
             let s = arg_slot(args[0])?;
